@@ -82,7 +82,11 @@ CHECKS.append(chk("C18", "exploration",
     "Through the public V1NodeEncryptor: round trip for every plaintext length 0..200 and block edges / large sizes; encrypting twice and under a second instance is byte-identical (deduplication); one generated corruption per case (bit flip anywhere, substitution, truncation, extension, nonce swap, wrong passphrase) must be an error; a harness-owned sealer for the earlier box format (validated byte-for-byte against the package's reference sealer) produces ciphertexts that must decrypt to the plaintext (open finding K6 beyond 32 bytes). kv level over the fake store: no node object contains generated key/value markers (control run without encryptor must show them), same content gives same node names and bytes across buckets and stores no new node object when the nodes exist, one flipped bit in a stored node or another passphrase makes open/Get fail. Thorough adds coverage-guided native fuzzing of Decrypt with an exact oracle (whatever is accepted must re-seal to the input).",
     "property-based testing (rapid): round-trip, determinism, tamper/negative cases, differential legacy sealer; native go fuzzing with a re-seal oracle"))
 
-for pid in ["C03","C17","C19"]:
+CHECKS.append(chk("C17", "exploration",
+    "State machine directly on kv.DB over the fake store (1-3 handles; Set/Tombstone with unique times in arbitrary order, Commit, Clone, Reopen merging all current versions in a generated order, RemoveTombstones, Diff, TraceHistory; default, conflict-callback and custom-merge modes; gob and JSON node codecs; three node formats; branch factor 2-4096). After every step Get, IsTombstoned, Size and a full cursor scan with times and tombstones must equal a map model of the documented join; Diff must report exactly the keys whose visible value differs, each once, with both values; TraceHistory must start at the current value and yield only values that were Set, in strictly decreasing time; the conflict callback must only see two different live values held by the merged versions.",
+    "stateful model-based property-based testing (rapid) against a map reference model"))
+
+for pid in ["C03","C19"]:
     NOT_YET[pid] = "check under construction in this session (designed in DESIGN.md section 5); not claimed until its quick tier runs clean on the unchanged tree"
 
 MANIFEST = {
@@ -92,7 +96,7 @@ MANIFEST = {
         "guard": "verif",
         "enable": "go test -tags verif (harness module /verif/harness, replace github.com/jrhy/s3db => /repo)",
         "baseline_off_cmd": BASELINE_OFF,
-        "source_commits": ["8e05d25"],
+        "source_commits": ["8e05d25", "a474f94"],
         "add_only": True,
     },
     "engines": [
